@@ -1,12 +1,16 @@
 """Shared by C02 / C12: drive real Allocation objects along refinement behaviours and let TLC (AllocTrace) judge."""
 from __future__ import annotations
 
+import math
 import random
 from fractions import Fraction as F
 
 from ..core import Ctx, digest
 from ..forkpool import prepare_imports, run_cases
 from ..lattice import ALL, EMBEDDINGS, OffLattice
+
+# eight embeddings plus the small-magnitude one (1e-6 units: the area tolerance exceeds the module areas there)
+EMBS = ALL + ["micro"]
 from .. import tlc
 
 C02_CLAUSES = {"constructs", "succeeds", "same_tiling", "same_areas", "same_centroids", "inherits", "fixed_uncut", "accessors",
@@ -18,7 +22,7 @@ def mod_name(m: int) -> str:
     return f"M{m + 1}"
 
 
-def build(emb, cells, den):
+def build(emb, cells, den, bump=None):
     from frame.allocation.allocation import Allocation
     from frame.geometry.geometry import Rectangle, Point, Shape
     lst = []
@@ -27,6 +31,11 @@ def build(emb, cells, den):
         r = Rectangle(center=Point(cx, cy), shape=Shape(w, h), fixed=bool(c[5]))
         alloc = {mod_name(m): float(F(n, den)) for m, n in enumerate(c[6]) if n >= 0}
         lst.append((r, alloc, c[4]))
+    for (ci, m, ulps) in (bump or []):      # near ties: an occupancy a few units in the last place off its lattice value
+        v = lst[ci][1][mod_name(m)]
+        for _ in range(abs(ulps)):
+            v = math.nextafter(v, 2.0 if ulps > 0 else -1.0)
+        lst[ci][1][mod_name(m)] = v
     return Allocation(lst)
 
 
@@ -73,7 +82,7 @@ def run_alloc_case(case):
         Rectangle.undefine_epsilon()
         try:
             try:
-                a = build(emb, case["cells"], den)
+                a = build(emb, case["cells"], den, case.get("bump"))
             except Exception as e:
                 # a valid allocation (pairwise non-overlapping lattice cells, ratios in [0,1]) must be constructible
                 res[en] = {"noconstruct": f"{type(e).__name__}: {e}"[:160]}
@@ -91,7 +100,7 @@ def run_alloc_case(case):
                 while todo:
                     cur = todo.pop()
                     ev = {"op": "refine" if cur == "loop" else cur, "tn": tn, "td": td, "lv": 1 if cur == "loop" else lv,
-                          "predict": case.get("predict", 0), "mbr": 0}
+                          "predict": case.get("predict", 0), "mbr": 0, "neartie": int(bool(case.get("bump")))}
                     if ev["op"] == "refine":
                         ev["mbr"] = int(bool(a.must_be_refined(thr)))
                         if cur == "loop" and not ev["mbr"]:
@@ -276,7 +285,28 @@ def sliver_cases(rng: random.Random, n: int):
         ops = [["griddify", 0, 1, 0]]
         if rng.random() < 0.3:
             ops.append(["griddify", 0, 1, 0])
-        out.append({"cells": full, "den": den, "nm": 2, "ops": ops, "embs": ALL, "predict": 1})
+        out.append({"cells": full, "den": den, "nm": 2, "ops": ops, "embs": EMBS, "predict": 1})
+    return out
+
+
+def neartie_cases(rng: random.Random, n: int):
+    """The largest occupancy of one refinable cell sits 1-3 units in the last place ABOVE (or below) the threshold, and
+    no other cell is selectable: must_be_refined and refine must still agree (a tolerance in only one of them shows)."""
+    out = []
+    for _ in range(n):
+        den = rng.choice([4, 10])
+        tn = rng.randint(1, den - 1)
+        ncell = rng.randint(1, 3)
+        cells = []
+        for i in range(ncell):
+            if i == 0:
+                rat = [tn, rng.choice([-1, 0, max(0, tn - 1)])]      # the tie cell: module 0 exactly at the threshold
+            else:
+                rat = [den, -1] if rng.random() < 0.5 else [min(den, tn + 1), -1]     # not selectable: something above t
+            cells.append([32 * i, 0, 32 * (i + 1), 32, rng.randint(0, 1), 0, rat])
+        ulps = rng.choice([1, 1, 2, 3, -1])
+        out.append({"cells": cells, "den": den, "nm": 2, "ops": [["loop", tn, den, 1]] if rng.random() < 0.5 else [["refine", tn, den, 1]],
+                    "embs": ["flt", "dec", "off"], "predict": 0, "bump": [[0, 0, ulps]], "loop_bound": 2})
     return out
 
 
@@ -289,7 +319,7 @@ def gen_cases(ctx: Ctx, tier: str, salt: int):
     for g in gen:
         nm = len(g["cells"][0][6])
         cases.append({"cells": g["cells"], "den": g["den"], "nm": nm, "ops": [list(o) for o in g["ops"]],
-                      "embs": ALL, "predict": 1})
+                      "embs": EMBS, "predict": 1})
     ctx.extra["behaviours_from_tlc"] = len(cases)
     rng = random.Random(ctx.seed * 1000003 + salt)
     cap = 3000 if tier == "quick" else 12000
@@ -301,7 +331,7 @@ def gen_cases(ctx: Ctx, tier: str, salt: int):
     for _ in range(n):
         a = random_alloc(rng)
         a["ops"] = random_ops(rng, a["cells"])
-        a["embs"] = ALL
+        a["embs"] = EMBS
         a["predict"] = 0
         a["loop_bound"] = 2
         cases.append(a)
@@ -309,4 +339,7 @@ def gen_cases(ctx: Ctx, tier: str, salt: int):
     sl = sliver_cases(rng, 60 if tier == "quick" else 600)
     cases += sl
     ctx.extra["sliver_layouts"] = len(sl)
+    nt = neartie_cases(rng, 60 if tier == "quick" else 600)
+    cases += nt
+    ctx.extra["near_tie_cases"] = len(nt)
     return cases
